@@ -543,7 +543,7 @@ func init() {
 					if sc.kind == "foreach" {
 						bound, maxExecs = tierBound(tier, 1, 2), tierBound(tier, 3000, 400000)
 					}
-					cfg := vrt.ExploreCfg{Bound: bound, Menu: menuTSE, Deadline: deadline, MaxExecs: maxExecs,
+					cfg := vrt.ExploreCfg{Bound: capBound(bound), Menu: menuTSE, Deadline: deadline, MaxExecs: maxExecs,
 						Exec: vrt.Config{Race: raceMode},
 						Check: func(x *vrt.Exec) []vrt.Violation {
 							out := c12Check(sc, x, &obs)
